@@ -11,8 +11,8 @@ variable {ctxs : Map CtxId Ctx} {reqs : Map ReqId Req} {bindings : Map (SvcName 
 theorem BoundInv.bindingsGrow (h : BoundInv ctxs reqs bindings) {bindings' : Map (SvcName × Addr) Binding}
     (hb : ∀ k, (Map.get bindings k).isSome → (Map.get bindings' k).isSome) : BoundInv ctxs reqs bindings' := by
   intro r q hq
-  obtain ⟨x, hx, hbb⟩ := h r q hq
-  exact ⟨x, hx, hb _ hbb⟩
+  obtain ⟨x, hx, hbb, hsup⟩ := h r q hq
+  exact ⟨x, hx, hb _ hbb, hsup⟩
 
 theorem isSome_set {κ ν} [DecidableEq κ] (m : Map κ ν) (k k2 : κ) (v : ν) (h : (Map.get m k2).isSome) :
     (Map.get (Map.set m k v) k2).isSome := by
@@ -22,13 +22,13 @@ theorem isSome_set {κ ν} [DecidableEq κ] (m : Map κ ν) (k k2 : κ) (v : ν)
 
 /-- a context replaced by one with the same service -/
 theorem BoundInv.setCtx (h : BoundInv ctxs reqs bindings) {c : CtxId} {x x' : Ctx}
-    (hx : Map.get ctxs c = some x) (hs : x'.svc = x.svc) : BoundInv (Map.set ctxs c x') reqs bindings := by
+    (hx : Map.get ctxs c = some x) (hs : x'.svc = x.svc ∧ x'.super = x.super) : BoundInv (Map.set ctxs c x') reqs bindings := by
   intro r q hq
-  obtain ⟨y, hy, hb⟩ := h r q hq
+  obtain ⟨y, hy, hb, hsup⟩ := h r q hq
   by_cases hc : c = r.ctx
   · subst hc; rw [hx] at hy; injection hy with hy; subst hy
-    exact ⟨x', by simp, by rw [hs]; exact hb⟩
-  · exact ⟨y, by rw [Map.get_set_other _ _ _ _ hc]; exact hy, hb⟩
+    exact ⟨x', by simp, by rw [hs.1]; exact hb, by rw [hs.2]; exact hsup⟩
+  · exact ⟨y, by rw [Map.get_set_other _ _ _ _ hc]; exact hy, hb, hsup⟩
 
 /-- request records removed -/
 theorem BoundInv.reqsSub (h : BoundInv ctxs reqs bindings) {reqs' : Map ReqId Req}
